@@ -342,6 +342,22 @@ impl<B> Call<WithBody, B> {
         Ok(())
     }
 
+    /// Proceed to receiving a response without sending the request body.
+    ///
+    /// For expect-100, when the server responds with something else than
+    /// 100-continue, the body is never sent.
+    pub(crate) fn into_receive_skip_body(self) -> Call<RecvResponse, B> {
+        Call {
+            request: self.request,
+            analyzed: self.analyzed,
+            state: BodyState {
+                phase: Phase::RecvResponse,
+                ..self.state
+            },
+            _ph: PhantomData,
+        }
+    }
+
     pub(crate) fn is_prelude(&self) -> bool {
         self.state.phase.is_prelude()
     }
